@@ -26,11 +26,11 @@ def model_checks(ctx):
             ("Balancer_mc_full.cfg", "safety: both buffers full, fail-over, drops (BufLen=1)", 900),
             ("Balancer_live.cfg", "liveness: accepted => eventually written, drops => eventually reported", 900)]
     if th:
-        runs += [("Balancer_mc_big.cfg", "safety big (BufLen=10, 4 packets, 2 faults)", 2400),
-                 ("Balancer_mc_full_big.cfg", "safety big: drops with a fault and reconnects (BufLen=1, 6 packets)", 2400),
-                 ("Balancer_mc_len_big.cfg", "safety big: two packet lengths, Close (BufLen=1)", 2400),
-                 ("Balancer_live_big.cfg", "liveness big: with a fault, late timers, Close", 2400),
-                 ("Balancer_live_full_big.cfg", "liveness big: drops are eventually reported", 2400),
+        runs += [("Balancer_mc_big.cfg", "safety big (BufLen=10, 4 packets, 2 faults)", 5400),
+                 ("Balancer_mc_full_big.cfg", "safety big: drops with a fault and reconnects (BufLen=1, 6 packets)", 5400),
+                 ("Balancer_mc_len_big.cfg", "safety big: two packet lengths, Close (BufLen=1)", 5400),
+                 ("Balancer_live_big.cfg", "liveness big: with a fault, late timers, Close", 5400),
+                 ("Balancer_live_full_big.cfg", "liveness big: drops are eventually reported", 5400),
                  ("Balancer_noskip.cfg", "what-if: no skip after a write error => nothing accepted is ever lost", 900)]
     for cfg, name, to in runs:
         res = ctx.tlc("BalancerMC", cfg, timeout=to, name=name, coverage=(th and cfg == "Balancer_mc_big.cfg"))
@@ -145,17 +145,15 @@ def run(ctx):
             accepted += nscn
             continue
         keep = ctx.save("rejected_trace_%d.ndjson" % i, open(path).read())
-        tv2 = validate(ctx, keep, 100 + i)
-        if tv2.violated != tv.violated:
-            raise Infra("trace rejection not reproducible (%s vs %s)" % (tv.violated, tv2.violated))
         where = [l for l in tv.printed if "TRACE_REJECTED" in l]
         line = None
         if where:
             line = int(re.search(r"(\d+)>>", where[0]).group(1))
         else:
-            m = re.findall(r"/\\ l = (\d+)", tv.out)
+            j = tv.out.rfind("/\\ l = ")   # the counterexample prints every state of a long trace: do not regex it
+            m = re.match(r"/\\ l = (\d+)", tv.out[j:j + 40]) if j >= 0 else None
             if m:
-                line = int(m[-1]) - 1
+                line = int(m.group(1)) - 1
         scn, kind, ev = scenario_at(keep, line) if line else (None, None, None)
         sig = tv.violated if tv.violated.startswith("invariant") else "trace-rejected"
         ctx.violation(sig, "real balancer execution violates %s at trace line %s (scenario %s, %s): %s" %
